@@ -273,6 +273,9 @@ class Summariser:
             return True
         if isinstance(e, ast.Compare) and len(e.ops) == 1:
             l, op, r = e.left, e.ops[0], e.comparators[0]
+            if isinstance(op, (ast.Is, ast.IsNot, ast.Eq, ast.NotEq)) and isinstance(l, (ast.Name, ast.Attribute)) \
+                    and isinstance(r, (ast.Name, ast.Attribute)) and norm(l) == norm(r) and norm(l).replace(".", "").replace("_", "").isalnum():
+                return isinstance(op, (ast.Is, ast.Eq))  # the same name denotes the same object
             if isinstance(op, (ast.Is, ast.IsNot)):
                 def kind(x):
                     if isinstance(x, ast.Constant):
@@ -746,3 +749,48 @@ def decide(rules, default, path, implies=()):
         else:
             outs.add(default)
     return outs
+
+
+def resolve(S, path, src):
+    """a source-level test seen from the end of `path`: ('const', bool) when it folds under the path's bindings, else
+    ('atom', text, polarity)"""
+    e = S.expand(ast.parse(src, mode="eval").body, path)
+    f = S.fold(e)
+    if f is not None:
+        return ("const", f)
+    a, pol = S.atom(e)
+    return ("atom", a, pol)
+
+
+def decide_src(S, path, rules, default, implies=()):
+    """decide() with conditions written as source text over the function's own names ({test source: required truth});
+    tests that fold under the path's bindings are evaluated, the others become the path's canonical atoms"""
+    out = []
+    for cond, outcome in rules:
+        c, possible = {}, True
+        for src, want in cond.items():
+            r = resolve(S, path, src)
+            if r[0] == "const":
+                if r[1] != want:
+                    possible = False
+            else:
+                need = (want == r[2])
+                if c.get(r[1], need) != need:
+                    possible = False
+                c[r[1]] = need
+        if possible:
+            out.append((c, outcome))
+    return decide(out, default, path, implies)
+
+
+def truth_src(S, path, src):
+    r = resolve(S, path, src)
+    if r[0] == "const":
+        return r[1]
+    t = path.truth(r[1])
+    return None if t is None else (t == r[2])
+
+
+def expand_src(S, path, src):
+    """canonical text of a source-level expression under the path's bindings"""
+    return text(S.expand(ast.parse(src, mode="eval").body, path))
